@@ -46,7 +46,7 @@ func runPairIsolation(c *ev.Ctx, sc []pairScenario) {
 		return
 	}
 	// own budget, so that a slow sequential phase cannot starve this one
-	budget := 150 * time.Second
+	budget := 240 * time.Second
 	if !c.Quick() {
 		budget = 20 * time.Minute
 	}
